@@ -462,6 +462,51 @@ def trailing_comma_rule(T, prop="C10"):
     return r
 
 
+def _full_for_loop(b, next_blk):
+    """is this `Iterator::next` the driver of a loop that only ends when the iterator does?  (every way out of the loop
+    body leads back to the `next` call; the only exit is the `None` edge)"""
+    t = b.term(next_blk)
+    tgt = t.get("target")
+    if tgt is None:
+        return False
+    sw = b.term(tgt)
+    if sw["k"] != "switch":
+        return False
+    none_t = next((tg for v, tg in sw["targets"] if v == 0), None)
+    some_t = next((tg for v, tg in sw["targets"] if v == 1), sw["otherwise"])
+    if none_t is None or some_t is None:
+        return False
+    body_blocks = b.reachable_from([some_t], stop=lambda x: x == next_blk)
+    if next_blk not in body_blocks:
+        return False        # not a loop
+    body_blocks -= {next_blk}
+    for x in body_blocks:
+        if b.is_cleanup(x):
+            continue
+        tt = b.term(x)
+        if tt["k"] in ("return",):
+            return False
+    # a `break` shows as an edge to a block that cannot come back to the header
+    back = set()
+    preds = b.preds()
+    todo = [next_blk]
+    while todo:
+        y = todo.pop()
+        for p_ in preds[y]:
+            if p_ not in back and not b.is_cleanup(p_):
+                back.add(p_)
+                todo.append(p_)
+    for x in body_blocks:
+        if b.is_cleanup(x) or x not in back:
+            continue
+        for s_ in b.succ(x):
+            if s_ not in back and s_ != next_blk and not b.is_cleanup(s_):
+                # leaves the loop from inside its body
+                if b.term(s_)["k"] != "unreachable":
+                    return False
+    return True
+
+
 def serde_lists_rule(crate, prop="C10"):
     """each #[serde(..)] list stands for itself: a list ts-rs cannot read (an empty `#[serde()]`, a list with a broken value)
     is dropped, the others are still merged"""
@@ -479,6 +524,9 @@ def serde_lists_rule(crate, prop="C10"):
         p = t["fn"]["path"]
         if re.search(r"Iterator::\w+$", p):
             ads.append(p.split("::")[-1])
+        if fn_matches(t, r"Iterator::next$", r"Iterator>::next$") and _full_for_loop(b, blk):
+            ads.append("for_each")          # a `for` loop without break / return in its body visits every element
+            continue
         if fn_matches(t, STOPPERS):
             f, l = M.user_span(t["span"])
             r.fail(prop, "serde-lists-cut-short utils::parse_serde_attrs -> %s" % p.split("::")[-1],
